@@ -485,6 +485,19 @@ def emit_scenario(engine, prop, tier, seed, idx):
     return None
 
 
+def verdict_of(v):
+    return (v.get('result') or {}).get('verdict', '')
+
+
+def emit_baseline(engine, prop):
+    """A fault-free scenario the engine can produce without running the system under test (see Engine::baseline)."""
+    r = subprocess.run([os.path.join(BUILD, engine), 'baseline', '--prop', prop], stdout=subprocess.PIPE, stderr=subprocess.DEVNULL, text=True)
+    for l in r.stdout.split('\n'):
+        if l.startswith('SCEN '):
+            return json.loads(l.split(' ', 2)[2])
+    return None
+
+
 def fresh_replay(engine, path):
     try:
         r = subprocess.run([os.path.join(BUILD, engine), 'replay', path], stdout=subprocess.PIPE, stderr=subprocess.PIPE, text=True, timeout=HANG_S * 2)
@@ -535,6 +548,9 @@ def check(prop, tier, seed, budget_override, workers):
         if n_new >= 6 and not known:
             continue
         sc = v['scenario'] or emit_scenario(engine, prop, tier, seed, v['index'])
+        if sc is None and verdict_of(v) in ('CRASH', 'HANG'):
+            # the generator itself runs the system under test (C15's census) and dies with it: judge the fault-free baseline
+            sc = emit_baseline(engine, prop)
         if sc is None:
             log('[%s] cannot regenerate scenario %d' % (prop, v['index']))
             harness_bad = True
